@@ -257,3 +257,74 @@ def gen_c12(seed, count):
 
 
 PYGEN['py_c12'] = gen_c12
+
+
+def _program_c15(r):
+    """a fault-free program with inbound traffic; returns a Case without script"""
+    c = Case(rx=r.choice([32, 64, 128]), tx=r.choice([64, 128, 256]), ka=0, downgrade=r.random() < 0.3)
+    props = r.choice([[], [(33, r.choice([1, 2, 5]))], [(36, 1)], [(39, r.choice([20, 64]))]])
+    c.connect(connack(0, 0, props))
+    nextpid = 1
+    for _ in range(r.randint(2, 12)):
+        x = r.random()
+        if x < 0.22:
+            c.publish(r.choice([b'a', b'topic/long/er']), bytes(r.randrange(256) for _ in range(r.randint(0, 30))), qos=r.choice([0, 1, 2]),
+                      props=r.choice([(), ((1, 1),), ((38, (b'k', b'v')),)]))
+        elif x < 0.30:
+            c.subscribe(((b'f/' + bytes([97 + r.randint(0, 5)]), r.randint(0, 2)),))
+        elif x < 0.34:
+            c.unsubscribe((b'f/a',))
+        elif x < 0.52:
+            q = r.choice([0, 1, 2])
+            c.feed(publish(q, r.randint(1, 6), r.choice([b't', 'tö/pic'.encode()]), bytes(r.randrange(256) for _ in range(r.randint(0, 40))),
+                           r.choice([(), ((8, b'r/t'), (9, b'c')), ((11, 300),)])))
+            c.poll()
+        elif x < 0.62:
+            c.feed(ack(r.choice([4, 5, 7]), r.randint(1, 4), r.choice([None, 0, 0x10, 0x80])))
+            c.poll()
+        elif x < 0.68:
+            c.feed(ack(6, r.randint(1, 6), None))
+            c.poll()
+        elif x < 0.74:
+            c.feed(suback(r.randint(1, 4), (r.choice([0, 1, 0x80]),), r.choice([9, 11])))
+            c.poll()
+        elif x < 0.80:
+            # several packets back to back in one burst
+            burst = [publish(0, 0, b'b1', b'1'), publish(1, 9, b'b2', b'2'), ack(4, 1, None), PINGRESP, PINGRESP,
+                     ack(6, 3, None), publish(0, 0, b'', b'')]
+            r.shuffle(burst)
+            k = r.randint(2, 5)
+            c.feed(b''.join(burst[:k]))
+            c.poll(k)
+        elif x < 0.9:
+            c.poll()
+        elif x < 0.95:
+            c.recv()
+        else:
+            c.drive()
+    c.broker(1)
+    c.poll(3)
+    return c
+
+
+def gen_c15(seed, count):
+    """pairs: the same program and inbound stream, (A) whole reads and writes, (B) a random fragmentation of every read
+    and write (1, 2, 3, 5 bytes or whole)"""
+    out = []
+    for idx in range(count):
+        r = random.Random((seed << 20) ^ (idx + 15485863))
+        c = _program_c15(r)
+        a = c.line()
+        style = r.random()
+        if style < 0.3:
+            amounts = [1]
+        elif style < 0.6:
+            amounts = [1, 2, 3]
+        else:
+            amounts = [1, 2, 3, 5, 1000, 1000]
+        c.ev(*[(0, r.choice(amounts)) for _ in range(r.randint(50, 1500))])
+        out.append((a, c.line(), {'kind': 'chunking'}))
+    return out
+
+
+PYGEN['py_c15'] = gen_c15
